@@ -127,7 +127,8 @@ def strip_membership_idiom(body, pb):
         c2 = c
         if c2.get("k") == "unary" and c2["op"] == "!":
             neg, c2 = True, peel(c2["e"])
-        if c2.get("k") == "mcall" and c2["name"] == "contains" and peel(c2["recv"]).get("k") == "local" and show(c2["args"][0]).replace(" ", "") == "&%s.id" % pb[0]:
+        a0 = field_path(c2["args"][0]) if c2.get("k") == "mcall" and c2.get("args") else None
+        if c2.get("k") == "mcall" and c2["name"] == "contains" and peel(c2["recv"]).get("k") == "local" and a0 and a0[1] is not None and canon(a0[1]) == canon(pb[1]) and a0[2] == ["id"]:
             if neg:
                 done = peel(c2["recv"])["id"]
             else:
@@ -191,23 +192,38 @@ def check_once_idiom(call, idiom, state_loop, ix, defs):
     cj = conj_list(the_if[0]["cond"])
     info_b = None
     for c in cj:
-        if c.get("k") == "letexpr" and "self.signals.get(" in show(c["init"]).replace(" ", ""):
-            bs = pat_bindings(c["pat"])
-            info_b = bs[0] if len(bs) == 1 else None
-    if info_b is None or show(ins[0]["args"][0]).replace(" ", "") != "%s.id" % info_b[0]:
+        if c.get("k") == "letexpr":
+            sb_, sms_ = chain(c["init"])
+            fps = field_path(sb_)
+            if fps and fps[0] == "self" and fps[2] == ["signals"] and [m_[0] for m_ in sms_][:1] == ["get"]:
+                bs = pat_bindings(c["pat"])
+                info_b = bs[0] if len(bs) == 1 else None
+    key = field_path(ins[0]["args"][0])
+    if info_b is None or not (key and key[1] is not None and canon(key[1]) == canon(info_b[1]) and key[2] == ["id"]):
         return "the inserted key must be the id of the signal looked up in self.signals"
-    allowed = {"!%s.is_state" % info_b[0], "(%s.uses.init>0)" % info_b[0]}
+
+    def allowed(c):
+        """`!info.is_state` or `info.uses.init > 0`"""
+        c = resolve(c)
+        if c.get("k") == "unary" and c["op"] == "!":
+            fp_ = field_path(c["e"])
+            return bool(fp_) and fp_[1] is not None and canon(fp_[1]) == canon(info_b[1]) and fp_[2] == ["is_state"]
+        if c.get("k") == "binary" and c["op"] in (">", "!=", ">="):
+            fp_ = field_path(c["l"])
+            v = peel(c["r"]).get("v")
+            return bool(fp_) and fp_[1] is not None and canon(fp_[1]) == canon(info_b[1]) and fp_[2] == ["uses", "init"] and ((c["op"] in (">", "!=") and v == 0) or (c["op"] == ">=" and v == 1))
+        return False
     for c in cj:
         if c.get("k") == "letexpr":
             continue
-        if show(c).replace(" ", "") not in allowed:
+        if not allowed(c):
             return "extra condition `%s` on membership in `needed`: some init-use signal of this init expression might never be defined" % show(c)[:60]
     # complete worklist from `init`
     loop = ix.enclosing(ins[0], ("while",))
     if loop is None or not contains(state_loop["body"], loop):
         return "no worklist loop collecting the sub-expressions"
     lc = peel(loop["cond"])
-    if not (lc.get("k") == "letexpr" and show(lc["init"]).replace(" ", "").endswith(".pop()")):
+    if not (lc.get("k") == "letexpr" and [m_[0] for m_ in chain(lc["init"])[1]] == ["pop"]):
         return "worklist loop is not `while let Some(e) = todo.pop()`"
     todo_id = local_id(chain(lc["init"])[0])
     tinit = simple_let_init(defs, todo_id)
@@ -215,7 +231,12 @@ def check_once_idiom(call, idiom, state_loop, ix, defs):
         return "the worklist must start from the state's init expression"
     e_b = binding_of_pat(lc["pat"]["subs"][0])
     fec = [n for n in walk(loop["body"]) if n.get("k") == "mcall" and n["name"] == "for_each_child"]
-    if len(fec) != 1 or not anyshow(fec[0], "todo.push(*c)") or len(ix.regions[id(fec[0])]) != len(ix.regions[id(loop)]) + 1:
+    def pushes_every_child(call):
+        cl_ = resolve(call["args"][0])
+        cb_ = pat_bindings(cl_["params"][0]) if cl_.get("k") == "closure" and cl_.get("params") else []
+        pu_ = [x for x in walk(cl_.get("body", {})) if x.get("k") == "mcall" and x["name"] == "push" and is_local(x["recv"], todo_id)]
+        return len(cb_) == 1 and len(pu_) == 1 and is_local(pu_[0]["args"][0], cb_[0][1]) and not any(x.get("k") == "if" for x in walk(cl_["body"]))
+    if len(fec) != 1 or not pushes_every_child(fec[0]) or len(ix.regions[id(fec[0])]) != len(ix.regions[id(loop)]) + 1:
         return "every child of a visited node must be pushed onto the worklist unconditionally"
     r = peel(fec[0]["recv"])
     if not (r.get("k") == "index" and is_local(r["i"], e_b[1])):
@@ -223,7 +244,7 @@ def check_once_idiom(call, idiom, state_loop, ix, defs):
     skips = [n for n in walk(loop["body"]) if n.get("k") in ("continue", "break", "return")]
     for sk in skips:
         a = [x for x in ix.ancestors(sk) if x.get("k") == "if" and contains(loop["body"], x)]
-        if len(a) != 1 or "visited.insert(" not in show(a[0]["cond"]).replace(" ", ""):
+        if len(a) != 1 or not any(x.get("k") == "mcall" and x["name"] in ("insert", "contains") and is_local(e_b and x["args"][0] or {}, e_b[1]) for x in walk(a[0]["cond"])):
             return "a node may only be skipped when it was already visited"
     return None
 
